@@ -312,6 +312,30 @@ def run(prog, check):
                  'commit reachable while `%s` is set' % flag,
                  'a system whose last sweep stepped over a division by zero')
     # the flag is cleared at the start of each sweep and only raised in handlers: its post-loop value is the last sweep's
+    # ---- R6: the tolerance the sweep stops at is the submitted one -------------------------------------------------
+    n6 = 0
+    for fn in prog.all_functions():
+        if fn.cls is not None and fn.cls.name == 'EquationParser':
+            continue
+        for a in ast.walk(fn.node):
+            if isinstance(a, ast.Assign) and isinstance(a.targets[0], ast.Attribute) and a.targets[0].attr in ('Err_Tolerance', 'ParameterErrorTolerance'):
+                root = a.targets[0].value
+                while isinstance(root, ast.Attribute):
+                    root = root.value
+                through_self = isinstance(root, ast.Name) and root.id == 'self'
+                in_ctor = fn.name == '__init__'
+                is_parse = through_self and isinstance(a.targets[0].value, ast.Name) and 'pars' in fn.name.lower()
+                ok = (not through_self) or in_ctor or is_parse
+                n6 += 1
+                check.ob('C02.R6', '%s::tolerance-write(%s)' % (fn.key, unparse(a.targets[0])), ok, '%s:%d' % (fn.module.rel, a.lineno),
+                         'the tolerance is set on a private copy / at construction / from the parsed block' if ok else
+                         'the stop tolerance of the live solver is overwritten here: later periods iterate to this tolerance, not the submitted one',
+                         'Err_Tolerance = 1e-10 submitted, then an initial steady-state search, then the main solve')
+    # the sweep reads the tolerance from the parsed block unless an explicit override is set
+    tol_src = [x for x in ast.walk(f.node) if isinstance(x, ast.Attribute) and x.attr in ('Err_Tolerance', 'ParameterErrorTolerance')]
+    check.ob('C02.R6', '%s::tolerance-source' % f.key, len({x.attr for x in tol_src}) == 2, f.where,
+             'stop tolerance = ParameterErrorTolerance if set, else the block\'s Err_Tolerance', 'any tolerance')
+    check.floor('C02.R6', 2)
     check.floor('C02.R1', 2)
     check.floor('C02.R2', 4)
     check.floor('C02.R3', 5)
